@@ -27,12 +27,18 @@ def main():
     src = "/tmp/wt/out/%s/%s" % (prop, m)
     sid = "%s-%s" % (prop.upper(), m)
     meta = {"id": sid, "property": prop.upper(), "ran": []}
-    sh("git checkout -q -- . && git clean -fdq", wt)
+    sh("git checkout -q -- . && git clean -fdq && git checkout -q --detach main", wt)
+    meta["repo_commit"] = sh("git rev-parse --short HEAD", wt)[1].strip()
     env = dict(os.environ, PYTHONPATH=wt)
     rc0, out0 = sh("%s %s/demo.py" % (PY, src), wt, env)
     meta["ran"].append({"cmd": "demo.py on clean worktree", "exit": rc0})
     rc, out = sh("git apply %s/patch.diff" % src, wt)
-    assert rc == 0, out
+    if rc != 0:
+        rc, out = sh("git apply --3way %s/patch.diff" % src, wt)
+    if rc != 0:
+        print(json.dumps({"id": sid, "confirmed": False, "reason": "patch no longer applies to the repaired tree: " + out[-200:]}))
+        sh("git checkout -q -- . && git clean -fdq", wt)
+        return
     rct, outt = sh("%s -m pytest -q -p no:cacheprovider -x tests 2>&1 | tail -3" % PY, wt)
     meta["ran"].append({"cmd": "pytest tests (157) with patch", "exit": rct, "tail": outt.strip().splitlines()[-1:]})
     rc1, out1 = sh("%s %s/demo.py" % (PY, src), wt, env)
@@ -53,7 +59,12 @@ def main():
     if ok:
         dst = "/verif/seeded/%s" % sid
         os.makedirs(dst, exist_ok=True)
-        shutil.copy(os.path.join(src, "patch.diff"), dst)
+        # the patch as it applies to the current tree
+        rc, out = sh("git apply %s/patch.diff || git apply --3way %s/patch.diff" % (src, src), wt)
+        rc, out = sh("git diff", wt)
+        with open(os.path.join(dst, "patch.diff"), "w") as f:
+            f.write(out)
+        sh("git checkout -q -- . && git clean -fdq", wt)
         shutil.copy(os.path.join(src, "demo.py"), dst)
         with open(os.path.join(dst, "meta.json"), "w") as f:
             json.dump(meta, f, indent=1)
